@@ -246,3 +246,47 @@ Definition c03_connect (toks : list (list N)) : list (list N) :=
   | [a; v] :: ds => c03_connect_go (length ds) (a =? 1) (v =? 1) ds
   | _ => REJECT_TOK
   end.
+
+(* ---------------- C04 ---------------- *)
+From TT Require Import Model.Rules Generated.RulesFacts.
+
+Definition c04_cidr (kind : N) (payload : list N) : cidr_field :=
+  if kind =? 0 then CNone
+  else if kind =? 1 then CBad
+  else match payload with
+       | f :: l :: a => CNet f (be a) l
+       | _ => CBad
+       end.
+
+Definition c04_pat (kind : N) (p m : list N) : pat_field :=
+  if kind =? 0 then PNone else if kind =? 1 then PBad
+  else if kind =? 2 then PPrefix p else PMasked p m.
+
+Fixpoint c04_rules (n : nat) (toks : list (list N)) : list rule * list (list N) :=
+  match n with
+  | O => ([], toks)
+  | S k =>
+    match toks with
+    | [act; ck; pk] :: c :: p :: m :: rest =>
+      let '(rs, tl) := c04_rules k rest in
+      ({| r_cidr := c04_cidr ck c; r_pat := c04_pat pk p m;
+          r_action := if act =? 0 then Allow else Deny |} :: rs, tl)
+    | _ => ([], toks)
+    end
+  end.
+
+Definition act_code (a : action) : N := match a with Allow => 0 | Deny => 1 end.
+
+Definition c04_eval (toks : list (list N)) : list (list N) :=
+  match toks with
+  | [n; _] :: rest =>
+    match c04_rules (N.to_nat n) rest with
+    | (rules, [has] :: peer :: tl) =>
+      let cr := if has =? 1 then Some (match tl with c :: _ => c | [] => [] end) else None in
+      let a := addr_of_bytes peer in
+      [[act_code (evaluate rules a cr);
+        act_code (connection_verdict RULES_ON_CANONICAL_PEER rules a cr)]]
+    | _ => REJECT_TOK
+    end
+  | _ => REJECT_TOK
+  end.
